@@ -40,102 +40,102 @@ const techniqueText = "bounded symbolic execution of the real Go code (go/ssa) w
 
 func init() {
 	checks["C12"] = &CheckDef{
-		Pkgs:    []string{"./control"},
-		Splice:  true,
-		Harness: []string{"control:Verif_C12_single_prefix"},
-		MaxIter: 400,
-		Level:   "other",
-		LevelText: "For one prefix of any family with all 128 address bits and all 128 probe bits symbolic, the solver shows that the real userspace trie (NewTrieFromPrefixes/HasPrefix/Prefix2bin128) and the real kernel LPM key (cidrToBpfLpmKey, spliced from bpf_utils.go) both decide exactly CIDR containment on the IPv4-mapped form. This is a statement about every address and probe inside the bound, which tests can only sample; it is bounded (lengths listed per tier) and therefore not a proof.",
-		LevelNote: "Trusted: go/ssa, the executor, z3, the bitwise containment spec in the harness, the kernel LPM trie's longest-prefix rule (modelled as 'first PrefixLen bits of the key bytes equal'), a warm byte-buffer pool. Quick tier: boundary prefix lengths only; thorough: all lengths 0..128 / 0..32.",
-		Technique: techniqueText,
+		Pkgs:        []string{"./control"},
+		Splice:      true,
+		Harness:     []string{"control:Verif_C12_single_prefix"},
+		MaxIter:     400,
+		Level:       "other",
+		LevelText:   "For one prefix of any family with all 128 address bits and all 128 probe bits symbolic, the solver shows that the real userspace trie (NewTrieFromPrefixes/HasPrefix/Prefix2bin128) and the real kernel LPM key (cidrToBpfLpmKey, spliced from bpf_utils.go) both decide exactly CIDR containment on the IPv4-mapped form. This is a statement about every address and probe inside the bound, which tests can only sample; it is bounded (lengths listed per tier) and therefore not a proof.",
+		LevelNote:   "Trusted: go/ssa, the executor, z3, the bitwise containment spec in the harness, the kernel LPM trie's longest-prefix rule (modelled as 'first PrefixLen bits of the key bytes equal'), a warm byte-buffer pool. Quick tier: boundary prefix lengths only; thorough: all lengths 0..128 / 0..32.",
+		Technique:   techniqueText,
 		Explanation: "Bounded symbolic execution of the real trie / LPM-key code from go/ssa against a bitwise containment specification.",
-		Bounds:  map[string]string{"quick": "one prefix; v6/IPv4-mapped lengths {0,1,7,8,9,31,32,33,64,95,96,97,104,127,128}, v4 lengths {0,1,8,9,24,31,32}; all address and probe bits symbolic", "thorough": "one prefix, every length 0..128 (v6) and 0..32 (v4); all address and probe bits symbolic"},
-		Outside: []string{"kernel LPM trie implementation (contract only)", "geodata-scale sets"},
+		Bounds:      map[string]string{"quick": "one prefix; v6/IPv4-mapped lengths {0,1,7,8,9,31,32,33,64,95,96,97,104,127,128}, v4 lengths {0,1,8,9,24,31,32}; all address and probe bits symbolic", "thorough": "one prefix, every length 0..128 (v6) and 0..32 (v4); all address and probe bits symbolic"},
+		Outside:     []string{"kernel LPM trie implementation (contract only)", "geodata-scale sets"},
 		Assumptions: []string{"sync.Pool hands out a warm buffer (capacity 512)", "kernel LPM lookup = longest-prefix rule over key bytes"},
 		QuickBudget: 8 * time.Minute, ThoroughBudget: 40 * time.Minute,
 	}
 	checks["C18"] = &CheckDef{
-		Pkgs:    []string{"./control"},
-		Harness: []string{"control:Verif_C18_table", "control:Verif_C18_strings"},
-		MaxIter: 400,
-		Level:   "other",
-		LevelText: "The real ControlPlane.ChooseDialTarget is executed symbolically for every combination of dial mode, outbound kind, presence of a sniffed name and what the DNS controller / real-domain cache know (symbolic booleans), and for every sniffed string up to the bound over the alphabet {1 . : [ ] a} with symbolic bytes through the real isIPLikeDomain, netip.ParseAddr, net.SplitHostPort and net.JoinHostPort; the solver discharges the decision-table and well-formedness obligations on every path.",
-		LevelNote: "Trusted: go/ssa, executor, z3. Environment replaced by symbolic stubs: DnsController.HasDnsKnowledge/cacheKey, lookupRealDomainCache, triggerRealDomainProbe (counted). Destination fixed to 10.1.2.3 with ports {1,443,65535}; strings up to 4 (quick) / 6 (thorough) bytes. Whether domain mode re-routes is not constrained (the property does not state it).",
-		Technique: techniqueText,
+		Pkgs:        []string{"./control"},
+		Harness:     []string{"control:Verif_C18_table", "control:Verif_C18_strings"},
+		MaxIter:     400,
+		Level:       "other",
+		LevelText:   "The real ControlPlane.ChooseDialTarget is executed symbolically for every combination of dial mode, outbound kind, presence of a sniffed name and what the DNS controller / real-domain cache know (symbolic booleans), and for every sniffed string up to the bound over the alphabet {1 . : [ ] a} with symbolic bytes through the real isIPLikeDomain, netip.ParseAddr, net.SplitHostPort and net.JoinHostPort; the solver discharges the decision-table and well-formedness obligations on every path.",
+		LevelNote:   "Trusted: go/ssa, executor, z3. Environment replaced by symbolic stubs: DnsController.HasDnsKnowledge/cacheKey, lookupRealDomainCache, triggerRealDomainProbe (counted). Destination fixed to 10.1.2.3 with ports {1,443,65535}; strings up to 4 (quick) / 6 (thorough) bytes. Whether domain mode re-routes is not constrained (the property does not state it).",
+		Technique:   techniqueText,
 		Explanation: "Bounded symbolic execution of ChooseDialTarget and the string normalisation it performs.",
-		Bounds:  map[string]string{"quick": "full decision table (4 modes x 7 outbounds x 4 names x 8 knowledge states x 3 ports); sniffed strings of <=4 symbolic bytes over a 6-letter alphabet, 3 name-using modes", "thorough": "same table; strings of <=6 symbolic bytes"},
-		Outside: []string{"strings longer than the bound or using other characters", "the re-route itself (Route is C01)"},
+		Bounds:      map[string]string{"quick": "full decision table (4 modes x 7 outbounds x 4 names x 8 knowledge states x 3 ports); sniffed strings of <=4 symbolic bytes over a 6-letter alphabet, 3 name-using modes", "thorough": "same table; strings of <=6 symbolic bytes"},
+		Outside:     []string{"strings longer than the bound or using other characters", "the re-route itself (Route is C01)"},
 		Assumptions: []string{"HasDnsKnowledge / real-domain cache answers are arbitrary booleans", "logger is a no-op"},
 		QuickBudget: 8 * time.Minute, ThoroughBudget: 40 * time.Minute,
 	}
 	checks["C14"] = &CheckDef{
-		Pkgs:    []string{"./component/outbound"},
-		Harness: []string{"component/outbound:Verif_C14_filter", "component/outbound:Verif_C14_invalid", "component/outbound:Verif_C14_first_invalid", "component/outbound:Verif_C14_policy"},
-		MaxIter: 400,
-		Level:   "other",
-		LevelText: "The real DialerSet.FilterAndAnnotate / filterHit / dialer.NewAnnotation / NewDialerSelectionPolicyFromGroupParam are executed symbolically over node pools with symbolic names and subscription tags and filter definitions whose shape (lines, '&&' conditions, values, keys, negation, annotations) is chosen by the solver-explored decision tree; on every path the member list, its order, uniqueness and the annotation of the first selecting line are compared with a direct evaluation of the statement, and an invalid element yields an error exactly when it is examined.",
-		LevelNote: "Trusted: go/ssa, executor, z3, the specification in the harness. regexp2 is used through a contract (Compile fails for patterns marked bad; MatchString is an uninterpreted predicate of pattern and subject); time.ParseDuration runs for real on concrete annotation values. Names are 2 symbolic bytes over {a,b}, tags 1 byte; bounds on shapes per tier below.",
-		Technique: techniqueText,
+		Pkgs:        []string{"./component/outbound"},
+		Harness:     []string{"component/outbound:Verif_C14_filter", "component/outbound:Verif_C14_invalid", "component/outbound:Verif_C14_first_invalid", "component/outbound:Verif_C14_policy"},
+		MaxIter:     400,
+		Level:       "other",
+		LevelText:   "The real DialerSet.FilterAndAnnotate / filterHit / dialer.NewAnnotation / NewDialerSelectionPolicyFromGroupParam are executed symbolically over node pools with symbolic names and subscription tags and filter definitions whose shape (lines, '&&' conditions, values, keys, negation, annotations) is chosen by the solver-explored decision tree; on every path the member list, its order, uniqueness and the annotation of the first selecting line are compared with a direct evaluation of the statement, and an invalid element yields an error exactly when it is examined.",
+		LevelNote:   "Trusted: go/ssa, executor, z3, the specification in the harness. regexp2 is used through a contract (Compile fails for patterns marked bad; MatchString is an uninterpreted predicate of pattern and subject); time.ParseDuration runs for real on concrete annotation values. Names are 2 symbolic bytes over {a,b}, tags 1 byte; bounds on shapes per tier below.",
+		Technique:   techniqueText,
 		Explanation: "Bounded symbolic execution of DialerSet.FilterAndAnnotate / filterHit / NewAnnotation / NewDialerSelectionPolicyFromGroupParam.",
-		Bounds:  map[string]string{"quick": "2 nodes; shapes: no filter | 1 line x 1 condition x <=2 values | 2 lines x 1 condition x 1 value | 1 line x 2 conditions x 1 value; inputs name/subtag, keys exact/keyword/regex, negation symbolic, 1 regex pattern; invalid-element harness: 6 kinds at fixed positions; policy: 7 names x params shapes", "thorough": "3 nodes; adds 2 lines x <=2 values, 2 lines x 2 conditions x <=2 values, 2 regex patterns"},
-		Outside: []string{"regexp2's own matching", "names longer than 2 bytes / other characters (matching is by equality and substring on symbolic bytes)", "NewDialerSetFromLinks (node link parsing)"},
+		Bounds:      map[string]string{"quick": "2 nodes; shapes: no filter | 1 line x 1 condition x <=2 values | 2 lines x 1 condition x 1 value | 1 line x 2 conditions x 1 value; inputs name/subtag, keys exact/keyword/regex, negation symbolic, 1 regex pattern; invalid-element harness: 6 kinds at fixed positions; policy: 7 names x params shapes", "thorough": "3 nodes; adds 2 lines x <=2 values, 2 lines x 2 conditions x <=2 values, 2 regex patterns"},
+		Outside:     []string{"regexp2's own matching", "names longer than 2 bytes / other characters (matching is by equality and substring on symbolic bytes)", "NewDialerSetFromLinks (node link parsing)"},
 		Assumptions: []string{"regexp2.Compile/MatchString by contract", "Dialer.Property() returns the harness's property object"},
 		QuickBudget: 8 * time.Minute, ThoroughBudget: 40 * time.Minute,
 	}
 	checks["C08"] = &CheckDef{
-		Pkgs:    []string{"./control"},
-		Harness: []string{"control:Verif_C08_lookup", "control:Verif_C08_janitor", "control:Verif_C08_lru", "control:Verif_C08_reload"},
-		MaxIter: 400,
-		Level:   "other",
-		LevelText: "Entries are created only through the real production insert path (UpdateDnsCacheTtlWithKey -> __updateDnsCacheDeadline with the NewCache closure of ControlPlane.dnsControllerOption and prepackResponseBeforeStore); every instant (insert, lookups, janitor), every TTL, and the optimistic/stale/fixed-TTL/size knobs are bit-vector variables. The solver shows for all of them: exact scoping of keys, served iff fresh or (optimistic and inside the stale window), exactly one refresh request per stale period, shown TTL >= 1 and <= remaining + 1 + 15 s, janitor removes exactly the run-out entries, LRU evicts exactly the least recently used, reload clone keeps deadline/packed TTL. 64-bit division by 10^9 is decided by cvc5 --solve-bv-as-int when z3 gives up.",
-		LevelNote: "Trusted: go/ssa, executor, z3/cvc5, harness spec. time.Time is abstracted to one int64 Unix-nanosecond instant (DESIGN 2.6); miekg/dns wire packing is replaced by an opaque blob that remembers the TTL it was packed with; kernel-table side effects (C10) are no-ops; clocks are arbitrary non-decreasing instants below 2^61 ns.",
-		Technique: techniqueText,
+		Pkgs:        []string{"./control"},
+		Harness:     []string{"control:Verif_C08_lookup", "control:Verif_C08_janitor", "control:Verif_C08_lru", "control:Verif_C08_reload"},
+		MaxIter:     400,
+		Level:       "other",
+		LevelText:   "Entries are created only through the real production insert path (UpdateDnsCacheTtlWithKey -> __updateDnsCacheDeadline with the NewCache closure of ControlPlane.dnsControllerOption and prepackResponseBeforeStore); every instant (insert, lookups, janitor), every TTL, and the optimistic/stale/fixed-TTL/size knobs are bit-vector variables. The solver shows for all of them: exact scoping of keys, served iff fresh or (optimistic and inside the stale window), exactly one refresh request per stale period, shown TTL >= 1 and <= remaining + 1 + 15 s, janitor removes exactly the run-out entries, LRU evicts exactly the least recently used, reload clone keeps deadline/packed TTL. 64-bit division by 10^9 is decided by cvc5 --solve-bv-as-int when z3 gives up.",
+		LevelNote:   "Trusted: go/ssa, executor, z3/cvc5, harness spec. time.Time is abstracted to one int64 Unix-nanosecond instant (DESIGN 2.6); miekg/dns wire packing is replaced by an opaque blob that remembers the TTL it was packed with; kernel-table side effects (C10) are no-ops; clocks are arbitrary non-decreasing instants below 2^61 ns.",
+		Technique:   techniqueText,
 		Explanation: "Bounded symbolic execution of the DNS cache insert, lookup, janitor, LRU and reload-clone code with symbolic instants.",
-		Bounds:  map[string]string{"quick": "lookup: 1 entry, 1 insert + <=2 lookups at arbitrary instants, ttl 0..31536000, stale window 0..3600 s, fixed ttl 0..86400; janitor: 2 entries, 1 pass; LRU: 4 entries with arbitrary distinct access times, limit 1..3; reload: 1 clone", "thorough": "same with LRU over 6 entries"},
-		Outside: []string{"DNS wire packing (miekg/dns)", "concurrent lookups (refresh flag is a CAS; sequential here)", "async BPF update worker"},
+		Bounds:      map[string]string{"quick": "lookup: 1 entry, 1 insert + <=2 lookups at arbitrary instants, ttl 0..31536000, stale window 0..3600 s, fixed ttl 0..86400; janitor: 2 entries, 1 pass; LRU: 4 entries with arbitrary distinct access times, limit 1..3; reload: 1 clone", "thorough": "same with LRU over 6 entries"},
+		Outside:     []string{"DNS wire packing (miekg/dns)", "concurrent lookups (refresh flag is a CAS; sequential here)", "async BPF update worker"},
 		Assumptions: []string{"time.Time abstraction: Unix nanoseconds, no zones", "Msg.Pack replaced by TTL-carrying blob", "clock non-decreasing, < 2^61 ns"},
 		QuickBudget: 8 * time.Minute, ThoroughBudget: 40 * time.Minute,
 	}
 	checks["C15"] = &CheckDef{
-		Pkgs:    []string{"./component/outbound"},
-		Harness: []string{"component/outbound/dialer:Verif_C15_min_2nodes", "component/outbound/dialer:Verif_C15_min_3nodes", "component/outbound/dialer:Verif_C15_random", "component/outbound:Verif_C15_group_select"},
-		MaxIter: 400,
-		QueryMs: 1500,
-		Level:   "other",
-		LevelText: "Histories of NotifyLatencyChange events (which node, alive or not, measured or not, latency, per-node offsets and the tolerance all symbolic) are run through the real AliveDialerSet from its constructor; after every event the solver shows that Len/GetMinLatency/GetRandExcluded agree with a ghost alive-set, that no measured alive node beats the chosen one by the tolerance or more, that the choice moved only for the reasons the statement lists, and that exclusion is honoured. The real DialerGroup.SelectWithExclusionResult/_select/selectionNetworkTypes run over six health domains with symbolic alive flags for every policy, requested type, strictness and excluded node.",
-		LevelNote: "Trusted: go/ssa, executor, z3/cvc5, harness spec. Dialer.snapshotLatencyForPolicy and MustGetAlive are replaced by the harness's ghost tables (a node once measured stays measured); fastrand is an arbitrary in-range value; logging is a no-op. Bounded histories from construction (no inductive invariant is assumed). Group callbacks (edge reporting) belong to C16 and are not asserted here.",
-		Technique: techniqueText,
+		Pkgs:        []string{"./component/outbound"},
+		Harness:     []string{"component/outbound/dialer:Verif_C15_min_2nodes", "component/outbound/dialer:Verif_C15_min_3nodes", "component/outbound/dialer:Verif_C15_random", "component/outbound:Verif_C15_group_select"},
+		MaxIter:     400,
+		QueryMs:     1500,
+		Level:       "other",
+		LevelText:   "Histories of NotifyLatencyChange events (which node, alive or not, measured or not, latency, per-node offsets and the tolerance all symbolic) are run through the real AliveDialerSet from its constructor; after every event the solver shows that Len/GetMinLatency/GetRandExcluded agree with a ghost alive-set, that no measured alive node beats the chosen one by the tolerance or more, that the choice moved only for the reasons the statement lists, and that exclusion is honoured. The real DialerGroup.SelectWithExclusionResult/_select/selectionNetworkTypes run over six health domains with symbolic alive flags for every policy, requested type, strictness and excluded node.",
+		LevelNote:   "Trusted: go/ssa, executor, z3/cvc5, harness spec. Dialer.snapshotLatencyForPolicy and MustGetAlive are replaced by the harness's ghost tables (a node once measured stays measured); fastrand is an arbitrary in-range value; logging is a no-op. Bounded histories from construction (no inductive invariant is assumed). Group callbacks (edge reporting) belong to C16 and are not asserted here.",
+		Technique:   techniqueText,
 		Explanation: "Bounded symbolic execution of AliveDialerSet and DialerGroup selection.",
-		Bounds:  map[string]string{"quick": "min policy: 2 nodes x 3 events and 3 nodes x 2 events (first event on node 0 by symmetry), latencies 0..10 s, offsets/tolerance 0..1 s; random: 3 nodes x 3 events; group select: 1-2 nodes, policies random/min/fixed(0,1,-1), requested in {data-udp4, tcp6, dns-udp4}, strict and non-strict, any excluded node, alive flags of every consulted domain symbolic", "thorough": "min policy: 2 nodes x 5 events, 3 nodes x 4 events; group select: all six requested types"},
-		Outside: []string{"min_avg10 / min_moving_avg differ from min only in snapshotLatencyForPolicy (stubbed)", "SetSelectionPolicy at run time", "concurrent notifications (mutex-protected)"},
+		Bounds:      map[string]string{"quick": "min policy: 2 nodes x 3 events and 3 nodes x 2 events (first event on node 0 by symmetry), latencies 0..10 s, offsets/tolerance 0..1 s; random: 3 nodes x 3 events; group select: 1-2 nodes, policies random/min/fixed(0,1,-1), requested in {data-udp4, tcp6, dns-udp4}, strict and non-strict, any excluded node, alive flags of every consulted domain symbolic", "thorough": "min policy: 2 nodes x 5 events, 3 nodes x 4 events; group select: all six requested types"},
+		Outside:     []string{"min_avg10 / min_moving_avg differ from min only in snapshotLatencyForPolicy (stubbed)", "SetSelectionPolicy at run time", "concurrent notifications (mutex-protected)"},
 		Assumptions: []string{"a measured node keeps having a measurement", "fastrand arbitrary", "untried health domains are set alive (adversarial)"},
 		QuickBudget: 8 * time.Minute, ThoroughBudget: 60 * time.Minute,
 	}
 	checks["C16"] = &CheckDef{
-		Pkgs:    []string{"./component/outbound"},
-		Harness: []string{"component/outbound/dialer:Verif_C16_thresholds", "component/outbound/dialer:Verif_C16_shared_node", "component/outbound/dialer:Verif_C16_suppression", "component/outbound/dialer:Verif_C16_snapshot"},
-		MaxIter: 400,
-		Level:   "other",
-		LevelText: "The real health state machine of dialer.Dialer (markAvailable, markUnavailableInternal, markAvailableTraffic, ReportUnavailable*, ReportAvailableTraffic, informDialerGroupUpdate, notifyAliveTransition, RegisterAliveDialerSet) together with the real AliveDialerSet is executed from counters holding an arbitrary number of consecutive failures below the thresholds, through histories of arbitrary events in each of the seven network types; a three-field monitor written from the statement (consecutive probe failures, consecutive traffic failures, alive; thresholds 1/3/10/50) is compared after every event, as are transition callbacks (edges only), what each group containing the node sees, and the latency group's kernel connectivity bit. Reload muting (Begin/EndReloadProxyFailureSuppression) and snapshot/restore are checked with the same objects.",
-		LevelNote: "Trusted: go/ssa, executor, z3, the monitor in the harness. NotifyHealthCheckResult (recovery back-off, sticky-IP cache) and the recovery manager's snapshot are stubbed out; probes are represented by the calls Dialer.check makes on success/failure; one node (plus a second in the shared-node harness). The connectivity map write (key = outbound*6+domain*2+family) is C19's subject; here the group callback is the observable.",
-		Technique: techniqueText,
+		Pkgs:        []string{"./component/outbound"},
+		Harness:     []string{"component/outbound/dialer:Verif_C16_thresholds", "component/outbound/dialer:Verif_C16_shared_node", "component/outbound/dialer:Verif_C16_suppression", "component/outbound/dialer:Verif_C16_snapshot"},
+		MaxIter:     400,
+		Level:       "other",
+		LevelText:   "The real health state machine of dialer.Dialer (markAvailable, markUnavailableInternal, markAvailableTraffic, ReportUnavailable*, ReportAvailableTraffic, informDialerGroupUpdate, notifyAliveTransition, RegisterAliveDialerSet) together with the real AliveDialerSet is executed from counters holding an arbitrary number of consecutive failures below the thresholds, through histories of arbitrary events in each of the seven network types; a three-field monitor written from the statement (consecutive probe failures, consecutive traffic failures, alive; thresholds 1/3/10/50) is compared after every event, as are transition callbacks (edges only), what each group containing the node sees, and the latency group's kernel connectivity bit. Reload muting (Begin/EndReloadProxyFailureSuppression) and snapshot/restore are checked with the same objects.",
+		LevelNote:   "Trusted: go/ssa, executor, z3, the monitor in the harness. NotifyHealthCheckResult (recovery back-off, sticky-IP cache) and the recovery manager's snapshot are stubbed out; probes are represented by the calls Dialer.check makes on success/failure; one node (plus a second in the shared-node harness). The connectivity map write (key = outbound*6+domain*2+family) is C19's subject; here the group callback is the observable.",
+		Technique:   techniqueText,
 		Explanation: "Bounded symbolic execution of the dialer health state machine against a threshold monitor.",
-		Bounds:  map[string]string{"quick": "thresholds: 7 network types x arbitrary initial consecutive-failure counts x 3 events of 7 kinds; shared node: 6 types x 3 events of 4 kinds, 2 groups; suppression: nested scopes, 3 muted failures then forced; snapshot: 6 arbitrary alive flags and counts", "thorough": "thresholds with 4 events"},
-		Outside: []string{"proxy-address escalation (three death transitions): recordProxyFailure is not driven here", "probe I/O, recovery back-off timers", "EnsureReloadSelectionFloor (group level)"},
+		Bounds:      map[string]string{"quick": "thresholds: 7 network types x arbitrary initial consecutive-failure counts x 3 events of 7 kinds; shared node: 6 types x 3 events of 4 kinds, 2 groups; suppression: nested scopes, 3 muted failures then forced; snapshot: 6 arbitrary alive flags and counts", "thorough": "thresholds with 4 events"},
+		Outside:     []string{"proxy-address escalation (three death transitions): recordProxyFailure is not driven here", "probe I/O, recovery back-off timers", "EnsureReloadSelectionFloor (group level)"},
 		Assumptions: []string{"NotifyHealthCheckResult is a no-op", "latency of a successful probe 1ns..5s"},
 		QuickBudget: 8 * time.Minute, ThoroughBudget: 60 * time.Minute,
 	}
 	checks["C04"] = &CheckDef{
-		Pkgs:    []string{"./component/routing"},
-		Harness: []string{"component/routing:Verif_C04_routing", "component/routing:Verif_C04_domain", "component/routing:Verif_C04_dns"},
-		MaxIter: 400,
-		Level:   "other",
-		LevelText: "Rule lists of symbolic shape are passed through the real ApplyRulesOptimizers with the real AliasOptimizer, DatReaderOptimizer.Optimize (loader stubbed), MergeAndSortRulesOptimizer and DeduplicateParamsOptimizer - the traffic pipeline and the DNS pipelines (no alias). The meaning of the list before and after is evaluated on the AST as one SMT term each, over an arbitrary truth assignment of the atoms (canonical function, canonical key, value); the solver shows the two decisions (outbound including its parameters, or fallback) equal for every assignment.",
-		LevelNote: "Trusted: go/ssa, executor, z3, the first-match evaluator in the harness. geodata files are replaced by fixed expansions; mohae/deepcopy by the executor's structural copy; atoms are free booleans (the link from atoms to packets is C01/C07/C11/C12). Shapes bounded per tier.",
-		Technique: techniqueText,
+		Pkgs:        []string{"./component/routing"},
+		Harness:     []string{"component/routing:Verif_C04_routing", "component/routing:Verif_C04_domain", "component/routing:Verif_C04_dns"},
+		MaxIter:     400,
+		Level:       "other",
+		LevelText:   "Rule lists of symbolic shape are passed through the real ApplyRulesOptimizers with the real AliasOptimizer, DatReaderOptimizer.Optimize (loader stubbed), MergeAndSortRulesOptimizer and DeduplicateParamsOptimizer - the traffic pipeline and the DNS pipelines (no alias). The meaning of the list before and after is evaluated on the AST as one SMT term each, over an arbitrary truth assignment of the atoms (canonical function, canonical key, value); the solver shows the two decisions (outbound including its parameters, or fallback) equal for every assignment.",
+		LevelNote:   "Trusted: go/ssa, executor, z3, the first-match evaluator in the harness. geodata files are replaced by fixed expansions; mohae/deepcopy by the executor's structural copy; atoms are free booleans (the link from atoms to packets is C01/C07/C11/C12). Shapes bounded per tier.",
+		Technique:   techniqueText,
 		Explanation: "Bounded symbolic execution of the rule optimizers against AST-level meaning under all atom valuations.",
-		Bounds:  map[string]string{"quick": "shapes: two neighbouring single-condition rules with <=2 values each | a two-condition rule followed by a single-condition rule; functions dip/ip/sip, domain (+dip), qname (+dip); negation symbolic; keys '', domain, suffix, contains, keyword, full, geosite/geoip; outbound spellings proxy / proxy(mark:1) / direct", "thorough": "adds three single-condition rules in a row"},
-		Outside: []string{"geodata file decoding", "SplitRequestRules", "rules with more than two conditions / values"},
+		Bounds:      map[string]string{"quick": "shapes: two neighbouring single-condition rules with <=2 values each | a two-condition rule followed by a single-condition rule; functions dip/ip/sip, domain (+dip), qname (+dip); negation symbolic; keys '', domain, suffix, contains, keyword, full, geosite/geoip; outbound spellings proxy / proxy(mark:1) / direct", "thorough": "adds three single-condition rules in a row"},
+		Outside:     []string{"geodata file decoding", "SplitRequestRules", "rules with more than two conditions / values"},
 		Assumptions: []string{"geosite/geoip codes expand to fixed lists", "deep copy is structural"},
 		QuickBudget: 8 * time.Minute, ThoroughBudget: 60 * time.Minute,
 	}
@@ -144,10 +144,13 @@ func init() {
 		Harness: []string{"control:Verif_C01_one_rule", "control:Verif_C01_two_rules"},
 		MaxIter: 600,
 		Level:   "other",
-		LevelText: "x", LevelNote: "x",
+		LevelText: "A routing program of symbolic shape (condition kinds, '!' flags, one or two values or key groups, outbound with mark/must parameters, must_rules, fallback) is lowered by the real NormalizedProgram.Lower / RulesBuilder.Apply / ParseOutbound into the real RoutingMatcherBuilder.add* methods with symbolic typed values (ports, prefixes, MACs, process names, DSCP, protocol/version masks), compiled by the real BuildUserspace, and a fully symbolic packet is routed through the real ControlPlane.Route / RoutingMatcher.Match. The solver shows (outbound, mark, must) equal to a first-match evaluator written from the statement, for every packet and every value.",
+		LevelNote: "Trusted: go/ssa, executor, z3/cvc5, the evaluator in the harness. Contracts used instead of re-executing the set matchers: K-LPM (trie.Prefix2bin128 + NewTrieFromPrefixes + HasPrefix decide CIDR containment on the IPv4-mapped form; proved in C12) and K-DOM (the domain matcher's bitmap has bit i set iff the set added under RuleIndex i matches; C11) - each domain set's match is a free boolean. The text-to-value parsers (ParsePortRange, ParseMac, parsePrefixes ...) are bypassed: parser closures hand symbolic typed values to the real add* methods.",
 		Technique: techniqueText,
-		Explanation: "Bounded symbolic execution of rule compilation and the userspace matcher.",
-		Bounds:  map[string]string{"quick": "", "thorough": ""},
-		QuickBudget: 8 * time.Minute, ThoroughBudget: 60 * time.Minute,
+		Explanation: "Bounded symbolic execution of rule lowering, compilation and the userspace matcher against a first-match specification.",
+		Bounds:  map[string]string{"quick": "one rule + fallback: each of the 10 condition kinds, 1-2 values (domain: 1-2 key groups), negation symbolic, 4 outbound forms incl. must_rules; two rules + fallback: port && {ip | domain | mac} (1-2 values) then sport, first rule must_rules or a marked group; prefix forms v4/24, v6/64, v4/0; packet fully symbolic (both address forms for the destination, with and without a domain)", "thorough": "all 10 kinds in every position of the two-rule shape, 7 outbound forms, prefix forms /0 /24 /32 /64 /128"},
+		Outside: []string{"more than two rules / two conditions per rule (the per-match-set loop state is the same for any length)", "string parsers of values", "config.patchMustOutbound"},
+		Assumptions: []string{"K-LPM (C12)", "K-DOM (C11): domain-set hits are free booleans", "logger is a no-op"},
+		QuickBudget: 8 * time.Minute, ThoroughBudget: 90 * time.Minute,
 	}
 }
